@@ -428,6 +428,10 @@ def run(ctx) -> Report:
     from .c03_compose import compose_grad
 
     compose_grad(ctx, rep)
+    from .c03_sequence import run_sequence
+
+    rep.counts["mesh_sequence_cases"] = run_sequence(ctx, rep)
+    rep.require_min("C03-sequence", 12)
     rep.require_min("C03-compose", 40)
     rep.require_min("C03-table", 270)
     rep.require_min("C03-calc", 100)
@@ -447,7 +451,7 @@ def run(ctx) -> Report:
         "symbolic affine geometry; the result must mean the chain-rule derivative and apply derivatives to terminals only."
     )
     rep.assumptions = [
-        "MeshSequence (mixed-domain) branches of the ReferenceValue/ReferenceGrad rules are not instantiated",
+        "MeshSequence (mixed-domain) branches of the ReferenceValue/ReferenceGrad rules: flat sequences of up to four component meshes of equal dimensions (C03-sequence)",
         "is_cellwise_constant / extract_unique_domain are modelled as oracles on the symbolic terminals",
         "reference semantics as in sa/uflmodel.py; Grad/ReferenceGrad are derivations on the term algebra",
     ]
